@@ -900,3 +900,17 @@ def mutant(p, r):
             return name, Prog(p.globals, p.fns, nf)
         return name, Prog(p.globals, p.fns[:fi] + [nf] + p.fns[fi + 1:], p.dsp)
     return None, None
+# ---- extension hook (C09/C10 staging layer, tools/gen/stagegen.py): node kinds registered in EXT_SRC / EXT_SX are
+# rendered by the plug-in; every recursive call inside this module goes through the dispatchers below
+_core_src, _core_sx = src, sx
+EXT_SRC, EXT_SX = {}, {}
+
+
+def src(n, kn=DEFAULT, ind=0, prec=0):
+    h = EXT_SRC.get(n.kind)
+    return h(n, kn, ind, prec) if h else _core_src(n, kn, ind, prec)
+
+
+def sx(n):
+    h = EXT_SX.get(n.kind)
+    return h(n) if h else _core_sx(n)
